@@ -49,6 +49,8 @@ def descr(t):
 
 def unit(c):
     n, d = c["u"]
+    if c["f"] and d == 0:
+        return float("inf") if n > 0 else float("-inf") if n < 0 else float("nan")
     return (n / d) if c["f"] else n
 
 
@@ -57,6 +59,16 @@ def run_case(c):
     k = c["kind"]
     if k == "value":
         v = c["v"]
+        # the value asked after its closest neighbours (differing in the 7th..9th digit) have been analysed, before it is asked on its own
+        def after_neighbours():
+            x = build(v)
+            for eps in (1e-9, -1e-9, 1e-7, -1e-7, 3e-7):
+                try:
+                    value.determine(x * (1 + eps))
+                except Exception:
+                    pass
+            return value.determine(x)
+        R.append(call("determine", {"v": v, "p": 0, "asked": "after its neighbours"}, after_neighbours, descr))
         R.append(call("determine", {"v": v, "p": 0}, lambda: value.determine(build(v)), descr))
         R.append(call("length", {"v": v}, lambda: build(v), ticks))
         if tuple(v["r"]) != (1, 1):
